@@ -5,6 +5,7 @@ import (
 	"encoding/json"
 	"fmt"
 	"os"
+	"runtime"
 	"sort"
 	"strings"
 	"sync"
@@ -812,6 +813,7 @@ func stress(res *hx.Result, svcName string, workers, rounds, nkeys int, seed uin
 							first.Do(func() { firstMsg = fmt.Sprintf("worker %d entered key %d while another worker was inside", w, k) })
 						}
 					}
+					runtime.Gosched() // stay inside for a moment so that others really contend
 					if okl, _ := L.IsLocked(ctx, lks); !okl {
 						bad.Add(1)
 						first.Do(func() { firstMsg = fmt.Sprintf("worker %d: IsLocked false right after a successful lock of %v", w, ks) })
